@@ -685,6 +685,21 @@ func cdecOp(c *Ctx, op string) {
 			}
 		}
 	}
+	// C06: a peer may announce trailers (Trailer: Grpc-Status, Grpc-Message, ...) and then not
+	// send all of them: net/http leaves those keys in Response.Trailer with a nil slice. The
+	// client must cope - no panic, a coded verdict (C06-me, re-examined in round 13: since F43 the
+	// trailers are only consulted once the body has ended, so a key that is still nil then is one
+	// that never arrived).
+	if !strings.HasPrefix(ans, "PANIC") && proto != "connect" {
+		alt := safely(func() string {
+			sc := &shapedClient{status: r.status, header: header, trailer: trailer, body: body, shape: transportShape{chunk: 0, eofWithData: false},
+				announce: []string{"Grpc-Status", "Grpc-Message", "Grpc-Status-Details-Bin", "X-Never-Sent"}}
+			return showView(kind, callClient(proto, kind, sc, nil, [][]byte{{}}, connect.WithReadMaxBytes(max)))
+		})
+		if strings.HasPrefix(alt, "PANIC") {
+			c.Fail("client-panic", op, alt, "the client panicked on a response that announces trailers it then does not send")
+		}
+	}
 	// C09: nothing larger than the read limit reaches the application
 	if max > 0 {
 		for _, m := range v.msgs {
@@ -795,11 +810,12 @@ type transportShape struct {
 }
 
 type shapedClient struct {
-	status  int
-	header  http.Header
-	trailer http.Header
-	body    []byte
-	shape   transportShape
+	announce []string // trailer keys announced up front whether or not they arrive
+	status   int
+	header   http.Header
+	trailer  http.Header
+	body     []byte
+	shape    transportShape
 }
 
 type shapedBody struct {
@@ -851,6 +867,13 @@ func (s *shapedClient) Do(req *http.Request) (*http.Response, error) {
 	// net/http announces the trailer keys up front (with nil values) and fills them in at EOF
 	for k := range s.trailer {
 		res.Trailer[k] = nil
+	}
+	// ... also keys the peer announced in its Trailer header and then never sends: they stay in
+	// the map with a nil slice
+	for _, k := range s.announce {
+		if _, ok := res.Trailer[k]; !ok {
+			res.Trailer[k] = nil
+		}
 	}
 	res.Body = &shapedBody{data: append([]byte(nil), s.body...), shape: s.shape, res: res, trailer: s.trailer}
 	return res, nil
